@@ -210,8 +210,8 @@ func intLit(v string) string {
 	return v
 }
 
-func sel(h, a string) string      { return "(select " + h + " " + a + ")" }
-func sto(h, a, v string) string   { return "(store " + h + " " + a + " " + v + ")" }
+func sel(h, a string) string    { return "(select " + h + " " + a + ")" }
+func sto(h, a, v string) string { return "(store " + h + " " + a + " " + v + ")" }
 func app(f string, a ...string) string {
 	if len(a) == 0 {
 		return f
